@@ -151,7 +151,7 @@ func (d *Decoder) readStruct() (interface{}, error) {
 	tag, err := d.readTag()
 	if err != nil {
 		hlog.Debugf("reading tag err:%v", err)
-		return nil, nil //ignore
+		return nil, tagReadError(err)
 	}
 
 	switch {
@@ -179,7 +179,7 @@ func (d *Decoder) ReadData() (interface{}, error) {
 	tag, err := d.readTag()
 	if err != nil {
 		hlog.Debugf("reading tag err:%v", err)
-		return nil, nil //ignore
+		return nil, tagReadError(err)
 	}
 
 	switch {
